@@ -93,7 +93,7 @@ def mc_cfg(I, N, inv, sim=False, mut=None):
 def bridge(I, name):
     """do the conditions of the relation-level theorems (VOAccuracyAbs: V1-V3 / W1, W3) hold in this instantiation's lattice geometry?
     Evaluated once by TLC (ASSUME + PrintT in the MC module); returns True / False, or None for kinds the bridge is not stated for."""
-    if I["Kind"] != "box" or I["Fam"] not in ("paveba", "vogp"):
+    if I["Kind"] != "box":
         return None
     mc, cfg = mc_cfg(I, 1, "Sane")
     mc = mc.replace("====\n", 'ASSUME PrintT(<<"BRIDGE", Bridge>>)\nBInit == mu = [i \\in D |-> <<0, 0>>] /\\ S = {} /\\ P = {} /\\ U = {} /\\ done = TRUE /\\ '
@@ -287,30 +287,36 @@ def accurate(I, mu, P):
     return True, ""
 
 
-ABS_CFG = 'CONSTANTS\n D = %s\n Fam = "%s"\n UseV2 = %s\n UseV3 = %s\nINIT Init\nNEXT Next\nINVARIANT %s\nINVARIANT Sane\nCHECK_DEADLOCK FALSE\n'
+ABS_CFG = 'CONSTANTS\n D = %s\n Fam = "%s"\n UseV2 = %s\n UseV3 = %s\n UseV4 = %s\nINIT Init\nNEXT Next\nINVARIANT %s\nINVARIANT Sane\nCHECK_DEADLOCK FALSE\n'
 
 
 def relation_level(ctx, prop):
     """the accuracy statement without geometry (spec/VOAccuracyAbs.tla): TLC for every truth and environment on 2-3 designs, the
     conditions shown to be needed (dropping one yields an inaccurate run), and the tlapm proof for every design set"""
     from . import tlaps
-    fam, inv = ("paveba", "PavebaInv") if prop == "C01" else ("vogp", "VogpInv")
-    runs = [("{1, 2, 3}" if fam == "paveba" else "{1, 2}", "TRUE", "TRUE", True)]
-    if fam == "paveba":
-        runs += [("{1, 2, 3}", "FALSE", "TRUE", False), ("{1, 2, 3}", "TRUE", "FALSE", False)]
-    for D, v2, v3, expect in runs:
-        res = tlc.run("VOAccuracyAbs", ABS_CFG % (D, fam, v2, v3, inv), timeout=1500)
-        ctx.add_tlc(res, "VOAccuracyAbs/%s D=%s V2=%s V3=%s" % (fam, D, v2, v3))
-        if expect and (res.violated or not res.ok):
-            raise tlc.MachineryError("VOAccuracyAbs %s: %s %s" % (fam, res.violated, res.error))
-        if not expect and res.violated != inv:
-            raise tlc.MachineryError("VOAccuracyAbs %s without V2=%s V3=%s should have an inaccurate run (vacuity guard): %s %s" % (fam, v2, v3, res.violated, res.error))
-    if fam == "vogp":
-        r, behs = tlc.simulate("VOAccuracyAbs", (ABS_CFG % ("{1, 2, 3}", fam, "TRUE", "TRUE", inv)), num=(400 if ctx.tier == "thorough" else 60), depth=8,
-                               seed=ctx.seed + 5, timeout=1200)
-        ctx.add_tlc(r, "VOAccuracyAbs/vogp -simulate D=3")
-        if r.violated:
-            raise tlc.MachineryError("VOAccuracyAbs vogp D=3 (simulation): %s" % r.violated)
+    fams = [("paveba", "PavebaInv"), ("auer", "AuerInv")] if prop == "C01" else [("vogp", "VogpInv")]
+    quick = ctx.tier != "thorough"
+    for fam, inv in fams:
+        # exhaustive over every truth and environment: three designs (Auer in the quick tier: two designs; three designs - 3 million states - in the thorough tier)
+        Dmain = "{1, 2}" if fam == "vogp" or (fam == "auer" and quick) else "{1, 2, 3}"
+        runs = [(Dmain, "TRUE", "TRUE", "TRUE", True)]
+        if fam == "paveba":
+            runs += [("{1, 2, 3}", "FALSE", "TRUE", "TRUE", False), ("{1, 2, 3}", "TRUE", "FALSE", "TRUE", False)]
+        if fam == "auer":
+            runs += [("{1, 2, 3}", "FALSE", "TRUE", "TRUE", False), ("{1, 2, 3}", "TRUE", "FALSE", "TRUE", False), ("{1, 2, 3}", "TRUE", "TRUE", "FALSE", False)]
+        for D, v2, v3, v4, expect in runs:
+            res = tlc.run("VOAccuracyAbs", ABS_CFG % (D, fam, v2, v3, v4, inv), timeout=1500)
+            ctx.add_tlc(res, "VOAccuracyAbs/%s D=%s V2=%s V3=%s V4=%s" % (fam, D, v2, v3, v4))
+            if expect and (res.violated or not res.ok):
+                raise tlc.MachineryError("VOAccuracyAbs %s: %s %s" % (fam, res.violated, res.error))
+            if not expect and res.violated != inv:
+                raise tlc.MachineryError("VOAccuracyAbs %s without V2=%s V3=%s V4=%s should have an inaccurate run (vacuity guard): %s %s" % (fam, v2, v3, v4, res.violated, res.error))
+        if fam == "vogp":
+            r, behs = tlc.simulate("VOAccuracyAbs", (ABS_CFG % ("{1, 2, 3}", fam, "TRUE", "TRUE", "TRUE", inv)), num=(400 if ctx.tier == "thorough" else 60), depth=8,
+                                   seed=ctx.seed + 5, timeout=1200)
+            ctx.add_tlc(r, "VOAccuracyAbs/vogp -simulate D=3")
+            if r.violated:
+                raise tlc.MachineryError("VOAccuracyAbs vogp D=3 (simulation): %s" % r.violated)
     nob = tlaps.prove("VOAccuracyProofs")
     ctx.extra["tlaps_obligations_proved"] = nob
     ctx.trusted.append("tlapm 1.6 back ends (Zenon, SMT, PTL) for the relation-level accuracy theorems of spec/proofs/VOAccuracyProofs.tla (any number of designs)")
